@@ -1,7 +1,7 @@
 (* Extraction of the broker-connection monitor and its trace specifications. *)
 From Coq Require Import ExtrOcamlBasic List NArith.
 From Coq.Strings Require Import Byte.
-From GM Require Import Codec.Packet Session.Ids Session.Store Broker.Conn Broker.ConnSpec Broker.ConnSpec2 Broker.ConnSpec3 Broker.ConnSpec5 Broker.ConnProofsCDefs.
+From GM Require Import Codec.Packet Session.Ids Session.Store Broker.Conn Broker.ConnSpec Broker.ConnSpec2 Broker.ConnSpec3 Broker.ConnSpec5 Broker.ConnSpec6 Broker.ConnProofsCDefs.
 Extraction Language OCaml.
 Separate Extraction
   Byte.to_N Byte.of_N N.of_nat N.to_nat Datatypes.length
@@ -15,4 +15,6 @@ Separate Extraction
   ConnSpec2.c15_in_order ConnSpec2.c15_release_intact ConnSpec2.c15_resend_order ConnSpec2.c15_dequeue_order ConnSpec5.c14_lifecycle2 ConnSpec5.c06_forward_intact ConnSpec5.c15_resend_first
   ConnSpec3.c08_popped_is_saved ConnSpec3.c08_pubrel_after_store ConnSpec3.c20_tokens
   ConnProofsCDefs.c16_slots_not_lost2
-  ConnProofsCDefs.c16_resume_fits ConnProofsCDefs.c16_window_const.
+  ConnProofsCDefs.c16_resume_fits ConnProofsCDefs.c16_window_const
+  ConnSpec6.c07_release_in_ack ConnSpec6.c20_acted_on ConnSpec6.c20_closes ConnSpec6.c16_quiescent_dequeuing
+  ConnSpec6.c08_deqack_after_store ConnSpec6.c08_store_replica.
